@@ -22,8 +22,12 @@ Ctx(kind, sg, tagdata) ==
       [] kind = "VM"     -> [a |-> "VM", h |-> 1, sigs |-> sg, data |-> PacketData(1, GoodPkts), pathc |-> "P1", val |-> "V"]
       [] kind = "VNM"    -> [a |-> "VNM", h |-> 1, sigs |-> sg, data |-> PacketData(1, <<Pk("P", "Z")>>), pathc |-> "P1"]
 
+\* besides all lists up to LMAX: every pool item as third signature after two good ones, and before two good ones
+Anchored(T) == { <<Sg("a1", "v01", "this", T), Sg("a2", "v01", "this", T), p>> : p \in Pool(T) }
+          \cup { <<p, Sg("a2", "v01", "this", T), Sg("a3", "v01", "this", T)>> : p \in Pool(T) }
 SigCases == UNION { { [q |-> q, pre |-> "fresh", act |-> Ctx(k, sg, 0)]
-                      : q \in Quorums, sg \in Lists(Pool(IF k = "Update" THEN "state" ELSE "packet"), LMAX) }
+                      : q \in Quorums, sg \in Lists(Pool(IF k = "Update" THEN "state" ELSE "packet"), LMAX)
+                                              \cup Anchored(IF k = "Update" THEN "state" ELSE "packet") }
                     : k \in {"Update", "VM", "VNM"} }
 
 PktLists(n) == {<<>>} \cup Lists(PktItems, n)
